@@ -97,12 +97,10 @@ def toWordSize (size : Nat) : Nat :=
 /-- `calcMemSize64WithUint(off, length64)` → (size, overflow) -/
 def calcMemSize64WithUint (off : Word) (length64 : Nat) : Nat × Bool :=
   if length64 = 0 then (0, false)
+  else if !isUint64 off then (0, true)   -- `off.Uint64WithOverflow()` overflowed
   else
-    let (offset64, overflow) := uint64WithOverflow off
-    if overflow then (0, true)
-    else
-      let val := (offset64 + length64) % 2 ^ 64
-      (val, decide (val < offset64))
+    -- `val := offset64 + length64` in uint64, overflow iff `val < offset64`
+    ((lo64 off + length64) % 2 ^ 64, decide ((lo64 off + length64) % 2 ^ 64 < lo64 off))
 
 /-- `calcMemSize64(off, l)` -/
 def calcMemSize64 (off l : Word) : Nat × Bool :=
